@@ -223,7 +223,7 @@ def r4_refusal(cx, classes):
             cx.bad(fn, "%s.validate refuses a filterable spec without filters (NoFilterException)" % cname, construct="(no raise NoFilterException)")
         for r in raises:
             g = guards_ex(r)
-            atoms = set((U(e), p) for e, p, o in g if o == "nest")
+            atoms = set((U(e), p) for e, p, o in g if o in ("nest", "exit-return", "exit-jump"))
             want = set([host, ("self._filterable", True), ("self._filters", False)])
             harmful = [(U(e), p, o) for e, p, o in g if (U(e), p) not in want and o != "exit-raise"]
             cx.require(want <= atoms and not harmful, r, "under HostContext, 'filterable and no filters' alone leads to NoFilterException",
